@@ -367,9 +367,82 @@ def r4_restored_flags_live(ctx, rule):
         ctx.ok(rule, MAIN, 'load_save() runs before every read of rule_name/skip_brute/skip_case that feeds the grammar', facts)
 
 
+def r7_probabilities_immutable(ctx, rule):
+    """After loading, nobody rewrites the probabilities of base structures / groups (flags must act only in the loader)."""
+    closure = ctx.resolver.closure(['pcfg_guesser.py', 'prince_ling.py'])
+    n = 0
+    bad = False
+    for q, fn in ctx.repo.all_funcs():
+        rel = q.partition('::')[0]
+        if rel not in closure or not rel.startswith('lib_guesser') or rel.endswith('grammar_io.py'):
+            continue
+        stores = stores_in(fn)
+        for node in walk_local(fn):
+            tgt = None
+            if isinstance(node, ast.Assign):
+                tgt = node.targets[0]
+            elif isinstance(node, ast.AugAssign):
+                tgt = node.target
+            if isinstance(tgt, ast.Subscript) and const(tgt.slice) in ('prob', 'values', 'replacements'):
+                n += 1
+                root = tgt.value
+                while isinstance(root, (ast.Subscript, ast.Attribute)):
+                    root = root.value
+                local_dict = isinstance(root, ast.Name) and any(v is not None and isinstance(v, ast.Dict) for s_, v in stores.get(root.id, [])) \
+                    and isinstance(tgt.value, ast.Name)
+                if not local_dict:
+                    bad = True
+                    ctx.bad(rule, q, 'loaded grammar modified: ' + U(node)[:70],
+                            'the default run, the --skip_brute run and the --all_lower run must see the probabilities the loader '
+                            'produced; rescaling them afterwards (e.g. "normalise trimmed rulesets" only when skip_brute is off) '
+                            'makes skip_brute no longer the default run rescaled by 1/(1-P(Markov))', None, node)
+    if ctx.floor(rule, 'lib_guesser', n, 2, "stores to ['prob'] in the guesser") and not bad:
+        ctx.ok(rule, 'lib_guesser', "outside the loader, ['prob']/['values'] are only stored into pt_items built in the same function")
+
+
+def r8_loader_stateless(ctx, rule):
+    """load_grammar is a function of (ruleset, flags): no module-level state survives between calls."""
+    rel = 'lib_guesser/grammar_io.py'
+    m = ctx.repo.mod(rel)
+    glob = set()
+    for st in m.tree.body:
+        if isinstance(st, ast.Assign):
+            for t in st.targets:
+                if isinstance(t, ast.Name):
+                    glob.add(t.id)
+        elif isinstance(st, ast.AnnAssign) and isinstance(st.target, ast.Name):
+            glob.add(st.target.id)
+    bad = False
+    n = 0
+    for lname, fn in m.funcs.items():
+        n += 1
+        q = rel + '::' + lname
+        local = set(params(fn)) | set(stores_in(fn))
+        for node in walk_local(fn):
+            if isinstance(node, ast.Global):
+                bad = True
+                ctx.bad(rule, q, 'global ' + ', '.join(node.names), 'loader state shared between calls', None, node)
+            hit = None
+            if isinstance(node, ast.Subscript) and isinstance(node.ctx, (ast.Store, ast.Del)) and isinstance(node.value, ast.Name) \
+                    and node.value.id in glob and node.value.id not in local:
+                hit = node
+            if isinstance(node, ast.Call) and isinstance(node.func, ast.Attribute) and isinstance(node.func.value, ast.Name) \
+                    and node.func.value.id in glob and node.func.value.id not in local \
+                    and node.func.attr in ('setdefault', 'update', 'append', 'add', 'extend', 'insert', 'pop', 'clear'):
+                hit = node
+            if hit is not None:
+                bad = True
+                ctx.bad(rule, q, 'module-level cache written: ' + U(hit)[:60],
+                        'a ruleset loaded once in a process (e.g. for the Prince list, or before --load restored the flags) is '
+                        'handed to a later load with different skip_case/skip_brute: the flags no longer restrict the grammar',
+                        {'module_level_names': sorted(glob)}, hit)
+    if ctx.floor(rule, rel, n, 6, 'loader functions') and not bad:
+        ctx.ok(rule, rel, 'no loader function writes module-level state (%d functions)' % n)
+
+
 def rules(tier):
     return [('C14.R1', r1_rewind), ('C14.R2', r2_renormalisation), ('C14.R3', r3_skip_case),
-            ('C14.R4', r4_restored_flags_live), ('C14.R5', lambda c, r: c08.r5_sav_keys(c, r, sections=('rule_info',), floor=4)), ('C14.R6', c01.r8_uniform_scale)]
+            ('C14.R4', r4_restored_flags_live), ('C14.R5', lambda c, r: c08.r5_sav_keys(c, r, sections=('rule_info',), floor=4)), ('C14.R6', c01.r8_uniform_scale), ('C14.R7', r7_probabilities_immutable), ('C14.R8', r8_loader_stateless)]
 
 
 META = {
